@@ -161,6 +161,15 @@ package client
 //@   callsite (*github.com/AdguardTeam/AdGuardHome/internal/client.index).add(ci, c) requires checked-first: c == p && clashOK[p]
 //@   modifies *
 
+// stHas / stIgnoresStats: what the storage answers for an identifier (a function of the identifier while its caller holds
+// the container's lock: assumed, the lookup itself is covered by the C04 contracts of the index).
+//@ declare stHas(s *Storage, id string) bool
+//@ declare stIgnoresStats(s *Storage, id string) bool
+//@ func (s *Storage) Find(id string) (p *Persistent, ok bool)
+//@   callsites-only
+//@   requires !held(s.mu)
+//@   ensures ok == stHas(s, id) && (ok ==> p != nil && p.IgnoreStatistics == stIgnoresStats(s, id))
+//@   modifies nothing
 // looseFound / looseIgnoreLog: the answer of the most recent FindLoose (the lookup the query log's client finder uses) and
 // the ignore-in-query-log flag of the client it found.
 //@ ghost var looseFound bool
